@@ -170,3 +170,109 @@ def corpus(prop):
     if not os.path.exists(p):
         return []
     return [l.strip() for l in open(p) if l.strip() and not l.startswith('#')]
+
+# ---------------------------------------------------------------- conversions / comparisons / floats
+import struct
+from fractions import Fraction
+
+FAMILIES = [(s, n) for s in (0, 1) for n in WIDTHS]
+def three(n):
+    return [0, 3 if n == 8 else n // 2 - 1, n]
+def pair_layouts():
+    return [(s, n, f) for (s, n) in FAMILIES for f in three(n)]
+def small_layouts():
+    return [(s, n, f) for (s, n) in FAMILIES for f in sorted({0, 1, 3 if n == 8 else n // 2 - 1, n - 1, n})]
+INT_TYPES = {'i8': (1, 8), 'i16': (1, 16), 'i32': (1, 32), 'i64': (1, 64), 'i128': (1, 128), 'isize': (1, 64),
+             'u8': (0, 8), 'u16': (0, 16), 'u32': (0, 32), 'u64': (0, 64), 'u128': (0, 128), 'usize': (0, 64)}
+FLOATS = {'f32': (32, 24), 'f64': (64, 53)}
+
+def related(rng, s1, n1, f1, s2, n2, f2, E1, a=None):
+    """a value b of layout 2 derived from a value a of layout 1: same value shifted to the other grid +- small deltas,
+    or range ends of layout 1 mapped into grid 2, or a value just beyond layout 1's range"""
+    if a is None:
+        a = rand_val(rng, s1, n1, f1, E1)
+    lo1, hi1 = rng_range(s1, n1)
+    r = rng.random()
+    d = f2 - f1
+    def sh(x):
+        return x << d if d >= 0 else x >> (-d)
+    if r < 0.5:
+        b = sh(a) + rng.choice([0, 0, 1, -1, 2, -2, rng.randint(0, max(0, (1 << max(0, d)) - 1))])
+    elif r < 0.7:
+        b = sh(rng.choice([lo1, hi1, hi1 + 1, lo1 - 1, 2 * hi1, 2 * hi1 + 1, hi1 + rng.randint(1, max(1, hi1))])) + rng.randint(-2, 2)
+    elif r < 0.8:
+        b = rng.choice(edges(s2, n2, f2))
+    else:
+        b = rand_val(rng, s2, n2, f2, edges(s2, n2, f2))
+    return a, clip(s2, n2, b)
+
+def float_bits_of(fmt, q):
+    """nearest float (bit pattern) of an exact Fraction, or None when out of range"""
+    try:
+        x = float(q)
+        if fmt == 'f32':
+            return struct.unpack('<I', struct.pack('<f', x))[0]
+        return struct.unpack('<Q', struct.pack('<d', x))[0]
+    except (OverflowError, struct.error):
+        return None
+
+def float_specials(fmt):
+    nbits, prec = FLOATS[fmt]
+    mant_bits = prec - 1
+    emax = (1 << (nbits - prec)) - 1
+    sign = 1 << (nbits - 1)
+    out = []
+    for sg in (0, sign):
+        out += [sg, sg | 1, sg | ((1 << mant_bits) - 1), sg | (1 << mant_bits), sg | (1 << (mant_bits - 1)),   # zero, subnormals, min normal
+                sg | (emax << mant_bits),                                   # inf
+                sg | (emax << mant_bits) | 1, sg | (emax << mant_bits) | (1 << (mant_bits - 1)),  # NaNs
+                sg | (emax << mant_bits) | ((1 << mant_bits) - 1),
+                sg | ((emax - 1) << mant_bits), sg | ((emax - 1) << mant_bits) | ((1 << mant_bits) - 1),  # top binade
+                sg | ((emax - 1) << mant_bits) | 1]
+    return out
+
+def rand_float(rng, fmt):
+    nbits, prec = FLOATS[fmt]
+    mant_bits = prec - 1
+    emax = (1 << (nbits - prec)) - 1
+    bias = emax >> 1
+    r = rng.random()
+    if r < 0.08:
+        return rng.choice(float_specials(fmt))
+    sg = rng.getrandbits(1) << (nbits - 1)
+    if r < 0.55:
+        # exponents near the fixed-point ranges: value in 2^-140 .. 2^140
+        e = bias + rng.randint(-140, 140)
+        e = min(max(e, 0), emax)
+    else:
+        e = rng.randint(0, emax)
+    m = rng.choice([0, 1, (1 << mant_bits) - 1, 1 << rng.randrange(mant_bits), (1 << rng.randrange(mant_bits)) - 1,
+                    rng.getrandbits(mant_bits), rng.getrandbits(mant_bits) & ~((1 << rng.randrange(mant_bits)) - 1)])
+    return sg | (e << mant_bits) | (m & ((1 << mant_bits) - 1))
+
+def layout_floats(rng, fmt, s, n, f, count):
+    """floats adjacent to the layout's grid ties and range ends, +-1/2 float ulps"""
+    nbits, prec = FLOATS[fmt]
+    lo, hi = rng_range(s, n)
+    out = []
+    E = edges(s, n, f)
+    for _ in range(count):
+        r = rng.random()
+        if r < 0.35:
+            k = rand_val(rng, s, n, f, E)
+            q = Fraction(2 * k + 1, 1 << (f + 1))                    # exact tie between k and k+1
+            if rng.random() < 0.3:
+                q += Fraction(rng.choice([-1, 1]), 1 << (f + rng.randint(2, 60)))
+        elif r < 0.6:
+            k = rng.choice([lo, hi, hi + 1, lo - 1, hi + 2, lo - 2])
+            q = Fraction(2 * k + rng.choice([-1, 0, 1]), 1 << (f + 1))
+        elif r < 0.85:
+            q = Fraction(rand_val(rng, s, n, f, E), 1 << f)
+        else:
+            q = Fraction(rand_val(rng, s, n, f, E) * 4 + rng.randint(-3, 3), 1 << (f + 2))
+        b = float_bits_of(fmt, q)
+        if b is None:
+            continue
+        b += rng.choice([0, 0, 0, 1, -1, 2, -2])
+        out.append(b % (1 << nbits))
+    return out
